@@ -14,8 +14,12 @@ def make_cases(chk):
     gens = []
     for i in range(n):
         rng = random.Random(chk.seed * 100003 + 50000 + i)
-        gens.append(gen.history(rng, rng.randint(6, hi), weights=WEIGHTS, trace=(i % 6 == 5)))
-    
+        g = gen.history(rng, rng.randint(6, hi), weights=WEIGHTS, trace=(i % 6 == 5))
+        if i % 3 == 0:
+            from props import C11
+            for _ in range(3):       # dilutions, some of the same undiluted value, some through the name= path
+                C11.add_dilute(g, rng, keep=0.6)
+        gens.append(g)
     return gens
 
 
